@@ -1,17 +1,17 @@
 ID = "C16"
 LEVEL = "proof"
-TITLE = "Both storage back-ends behave as one ordered-mailbox model under any history"
+TITLE = 'Each stored and each removed message produces exactly one event, in causal order'
 DESIGN_REF = "DESIGN.md §4 C16"
 TECHNIQUE = "machine-checked proof in Coq + model/code correspondence check"
-LEVEL_TEXT = "placeholder"
-LEVEL_NOTE = "placeholder"
+LEVEL_TEXT = "proof (partial): listener_serial — the per-listener FIFO broker model calls a listener serially under EVERY schedule; stored_before_deleted_refuted is the witness of the open finding. Event contents of every operation (one deleted event per departure by remove, purge, cap, size limit; one stored event per delivery, in that order) are part of the refinement statements proved for C07 (file model all caps, memory model without limits) and are otherwise checked by the oracle on 400 histories per run through the real StoreManager.Deliver and extension.Host listeners. Retention is C12's."
+LEVEL_NOTE = 'events are attributed to operations by flushing both brokers with a sentinel after every operation; order between the two brokers is observed at operation granularity only'
 RULE = ("random operation histories (4-60 ops, 1-5 mailboxes incl. names sharing a 12-bit SHA-1 prefix, '@' and special "
         "characters; missing / not-yet-issued / bogus / 'latest' handles, double removes, purge-then-latest) on a fresh real "
         "memory store and a fresh real file store; distinct = distinct input line; non-trivial = at least one add and one "
         "operation on a stored message")
-TRUSTED = []
+TRUSTED = ["handles: messages are named by 'k-th add to this mailbox' / 'latest' / a bogus literal; the driver's id<->handle table (Go map) is modelled by StoreSpecImpl.run_impl", 'message content is abstracted to (date, tag, size, seen): the driver checks that from/to/subject/body/mailbox read back equal what the add with that handle wrote and prints the tag only then', 'VisitMailboxes enumeration order (map / readdir order) is not compared: groups are sorted by mailbox on both sides; empty groups are dropped', 'file store: byte-level disk protocol (tmp+rename, unlink order, gob) is not in this model (C10/C11); I/O errors are not modelled', 'memory store: the size enforcer goroutine is modelled as a synchronous sub-step (callers block on md.done); creation of an empty mailbox record by reads is not modelled (unobservable)', 'Go scheduler/locks: asyncListener.push/deliver are modelled as atomic steps (Events.v)']
 ASSUMPTIONS = []
-NOT_PROVED = []
+NOT_PROVED = ['stored_once_stmt, deleted_once_stmt (Proofs/EventsTrace.v): per message exactly one stored event and #deleted + #live = #stored over every history', 'stored_before_deleted_partial_stmt: without oversize adds no deleted event precedes its stored event', 'delivery_is_emit_order: a listener receives the events in emit order (FIFO); only seriality is proved', 'cross-broker order: AfterMessageStored and AfterMessageDeleted are separate brokers; nothing orders a listener pair across them (see report)']
 
 
 def nontrivial(kind, ins, outs):
